@@ -406,10 +406,14 @@ def explore(exp, bound, limit, blocked_probes=True):
     seen = set()
     stack = [([], 0)]
     runs = 0
-    while stack and runs < limit:
+    failures = 0
+    while stack and runs < limit and failures < 3:
         prefix, used = stack.pop()
         r = exp.run(prefix)
         runs += 1
+        # a failing schedule outside left-recursion mode is a finding by itself: a few of them are enough, stop widening
+        if r["hang"] or r["discipline"] or (exp.mode != "lr" and r["results"] != exp.serial):
+            failures += 1
         key = tuple(r["schedule"])
         if key in seen:
             continue
